@@ -856,6 +856,18 @@ fn exec_topk(hdr: &[&str], ops: &[String], obs: &mut Vec<String>) {
             let xs: Vec<$t> = nums::<$t>(&words);
             let out = top_k(xs.iter().copied(), k);
             obs.push(format!("D out={} n={}", join(out.iter(), ","), out.len()));
+            // the same items through other `IntoIterator` shapes: the result is a function of the item sequence,
+            // not of `size_hint` (exact for the slice iterator and the Vec, (0, Some(n)) for `filter`,
+            // (0, None) for `from_fn`, (0, Some(..)) for `flat_map`)
+            let out = top_k(xs.clone(), k);
+            obs.push(format!("D out_vec={} n={}", join(out.iter(), ","), out.len()));
+            let out = top_k(xs.iter().copied().filter(|_| true), k);
+            obs.push(format!("D out_filter={} n={}", join(out.iter(), ","), out.len()));
+            let mut it = xs.iter().copied();
+            let out = top_k(std::iter::from_fn(move || it.next()), k);
+            obs.push(format!("D out_fromfn={} n={}", join(out.iter(), ","), out.len()));
+            let out = top_k(xs.chunks(3).flat_map(|c| c.iter().copied()), k);
+            obs.push(format!("D out_flatmap={} n={}", join(out.iter(), ","), out.len()));
         }};
     }
     match ty {
